@@ -168,6 +168,8 @@ def _exact_div(A, u):
 
 
 def _cancel_recips(p):
+    if os.environ.get("VERIF_NO_CANCEL"):
+        return p
     """recip(u)^k * A with u | A  ->  recip(u)^(k-1) * (A / u): common factors between a numerator and a reciprocal atom are
     cancelled (u * recip(u) = 1), so that e.g. (g.g) * sqrt(g.g)^-2 inside a radical becomes 1.  Exact polynomial division
     only; nothing is changed when the division is not exact."""
@@ -384,7 +386,7 @@ def normal(p, quats=(), lin=False):
 
 
 STATS = {"decisions": 0, "timeouts": 0, "slowest_s": 0.0}
-DECISION_SECONDS = float(os.environ.get("VERIF_DECISION_SECONDS", "20"))     # check.py raises it for the thorough tier
+DECISION_SECONDS = float(os.environ.get("VERIF_DECISION_SECONDS", "60"))     # check.py raises it for the thorough tier
 
 
 def decide(p, q, quats=(), maxdeg=None):
@@ -465,8 +467,12 @@ def _decide(p, q, quats):
         bn, bd = split_rational(b)
         if ad.const_value() == 1 and bd.const_value() == 1:
             break
-        l = normal(an * bd, quats)
-        r = normal(bn * ad, quats)
+        if ad == bd:
+            # equal denominators: the numerators decide (no cross-multiplication: it only inflates both sides)
+            l, r = normal(an, quats), normal(bn, quats)
+        else:
+            l = normal(an * bd, quats)
+            r = normal(bn * ad, quats)
         if l == r:
             return EQUAL
         a, b = l, r
